@@ -1,0 +1,89 @@
+//go:build verif
+
+// Contracts for the verification machinery in /verif (comment-only; no declarations).
+// Syntax: see /verif/DESIGN.md section 2.4.
+
+package swarm
+
+// ---------------------------------------------------------------------------
+// C20: black-hole detector
+
+//@ spec fn cnt(s []bool, lo int, hi int) int rec = ite(lo >= hi, 0, cnt(s, lo, hi-1) + ite(s[hi-1], 1, 0))
+//@ spec fn st(n int, succ int, N int, min int) BlackHoleState = ite(n < N, blackHoleStateProbing, ite(succ >= min, blackHoleStateAllowed, blackHoleStateBlocked))
+
+//@ prop C20
+//@ lemma cntUnfold(s []bool, lo int, hi int)
+//@ requires lo < hi
+//@ ensures cnt(s, lo, hi) == cnt(s, lo, hi-1) + ite(s[hi-1], 1, 0)
+
+//@ lemma cntEmpty(s []bool, lo int, hi int)
+//@ requires lo >= hi
+//@ ensures cnt(s, lo, hi) == 0
+
+//@ lemma cntDropFirst(s []bool, lo int, hi int) induction hi
+//@ base hi <= lo + 1
+//@ requires lo < hi
+//@ ensures cnt(s, lo+1, hi) == cnt(s, lo, hi) - ite(s[lo], 1, 0)
+
+//@ lemma cntSlide(s []bool, t []bool, d int, n int) induction n
+//@ base n <= 0
+//@ requires forall i int :: 0 <= i && i < n ==> t[i] == s[i+d]
+//@ ensures cnt(t, 0, n) == cnt(s, d, n+d)
+
+//@ lemma cntBounds(s []bool, lo int, hi int) induction hi
+//@ base hi <= lo
+//@ ensures 0 <= cnt(s, lo, hi) && (lo <= hi ==> cnt(s, lo, hi) <= hi - lo)
+
+//@ pred wf(b *BlackHoleSuccessCounter) = b.N > 0 && len(b.dialResults) <= b.N && b.requests >= 0 &&
+//@     b.successes == cnt(b.dialResults, 0, len(b.dialResults)) &&
+//@     b.state == st(len(b.dialResults), b.successes, b.N, b.MinSuccesses)
+
+//@ func (b *BlackHoleSuccessCounter) updateState
+//@ prop C20
+//@ ensures b.state == st(len(b.dialResults), b.successes, b.N, b.MinSuccesses)
+//@ modifies b.state
+
+//@ func (b *BlackHoleSuccessCounter) reset
+//@ prop C20
+//@ requires b.N > 0
+//@ ensures len(b.dialResults) == 0 && b.successes == 0 && b.requests == 0 && b.state == blackHoleStateProbing
+//@ modifies b.successes, b.dialResults, b.requests, b.state
+
+//@ func (b *BlackHoleSuccessCounter) RecordResult
+//@ prop C20
+//@ requires wf(b)
+//@ instance cntUnfold(b.dialResults, 0, len(b.dialResults))
+//@ instance cntEmpty(b.dialResults, 0, len(b.dialResults))
+//@ instance cntSlide(old(b.dialResults), b.dialResults, 0, len(old(b.dialResults)))
+//@ instance cntSlide(old(b.dialResults), b.dialResults, 1, len(b.dialResults)-1)
+//@ instance cntDropFirst(old(b.dialResults), 0, len(old(b.dialResults)))
+//@ ensures wf(b)
+//@ ensures old(b.state) == blackHoleStateBlocked && success ==>
+//@         len(b.dialResults) == 0 && b.successes == 0 && b.requests == 0 && b.state == blackHoleStateProbing
+//@ ensures !(old(b.state) == blackHoleStateBlocked && success) && len(old(b.dialResults)) < b.N ==>
+//@         len(b.dialResults) == len(old(b.dialResults)) + 1 &&
+//@         b.dialResults[len(b.dialResults)-1] == success &&
+//@         (forall i int :: 0 <= i && i < len(old(b.dialResults)) ==> b.dialResults[i] == old(b.dialResults[i]))
+//@ ensures !(old(b.state) == blackHoleStateBlocked && success) && len(old(b.dialResults)) == b.N ==>
+//@         len(b.dialResults) == b.N && b.dialResults[b.N-1] == success &&
+//@         (forall i int :: 0 <= i && i < b.N-1 ==> b.dialResults[i] == old(b.dialResults[i+1]))
+//@ ensures b.state == blackHoleStateBlocked ==> len(b.dialResults) == b.N && cnt(b.dialResults, 0, b.N) < b.MinSuccesses
+//@ ensures b.N == old(b.N) && b.MinSuccesses == old(b.MinSuccesses)
+//@ ensures !(old(b.state) == blackHoleStateBlocked && success) ==> b.requests == old(b.requests)
+//@ modifies b.successes, b.dialResults, b.state, b.requests
+
+//@ func (b *BlackHoleSuccessCounter) HandleRequest
+//@ prop C20
+//@ requires wf(b)
+//@ ensures wf(b) && b.requests == old(b.requests) + 1
+//@ ensures result == blackHoleStateAllowed <==> b.state == blackHoleStateAllowed
+//@ ensures b.state == blackHoleStateProbing ==> result == blackHoleStateProbing
+//@ ensures b.state == blackHoleStateBlocked ==> (result == blackHoleStateProbing <==> b.requests % b.N == 0)
+//@ ensures b.state == blackHoleStateBlocked && b.requests % b.N != 0 ==> result == blackHoleStateBlocked
+//@ ensures b.state == old(b.state)
+//@ modifies b.requests
+
+//@ func (b *BlackHoleSuccessCounter) State
+//@ prop C20
+//@ ensures result == b.state
+//@ modifies nothing
